@@ -120,35 +120,36 @@ Fixpoint parse (fuel : nat) (d : bytes) : option (list field) :=
         else if (fnum <=? 0)%Z then None
         else
           let num := Z.to_N fnum in
-          match wt with
-          | 0 => match rd_varint r with
-                 | None => None
-                 | Some (x, r') =>
-                   match parse f r' with
+          if wt =? 0 then
+            match rd_varint r with
+            | None => None
+            | Some (x, r') =>
+              match parse f r' with
+              | None => None
+              | Some fs => Some ((num, FV x) :: fs)
+              end
+            end
+          else if wt =? 2 then
+            match rd_varint r with
+            | None => None
+            | Some (len, r') =>
+              if nlen r' <? len then None
+              else let n := N.to_nat len in
+                   match parse f (skipn n r') with
                    | None => None
-                   | Some fs => Some ((num, FV x) :: fs)
+                   | Some fs => Some ((num, FB (firstn n r')) :: fs)
                    end
-                 end
-          | 2 => match rd_varint r with
-                 | None => None
-                 | Some (len, r') =>
-                   if nlen r' <? len then None
-                   else let n := N.to_nat len in
-                        match parse f (skipn n r') with
-                        | None => None
-                        | Some fs => Some ((num, FB (firstn n r')) :: fs)
-                        end
-                 end
-          | _ => match skip_field (S (length d)) d with
-                 | None => None
-                 | Some n =>
-                   if nlen d <? n then None
-                   else match parse f (skipn (N.to_nat n) d) with
-                        | None => None
-                        | Some fs => Some ((num, FSkip) :: fs)
-                        end
-                 end
-          end
+            end
+          else
+            match skip_field (S (length d)) d with
+            | None => None
+            | Some n =>
+              if nlen d <? n then None
+              else match parse f (skipn (N.to_nat n) d) with
+                   | None => None
+                   | Some fs => Some ((num, FSkip) :: fs)
+                   end
+            end
       end
     end
   end.
@@ -252,7 +253,7 @@ Record snapshotfile := mkSF {
 Definition sf_zero := mkSF [] 0 0 None.
 Definition olen (o : option bytes) : N := match o with Some b => nlen b | None => 0 end.
 Definition wf_sf (s : snapshotfile) : Prop :=
-  nlen (sf_filepath s) < 2 ^ 63 /\ u64 (sf_filesize s) /\ u64 (sf_fileid s) /\ olen (sf_metadata s) < 2 ^ 63.
+  nlen (sf_filepath s) < 2 ^ 32 /\ u64 (sf_filesize s) /\ u64 (sf_fileid s) /\ olen (sf_metadata s) < 2 ^ 32.
 Definition opt_field (n : N) (o : option bytes) : list field :=
   match o with Some b => [(n, FB b)] | None => [] end.
 Definition sf_to_fields (s : snapshotfile) : list field :=
@@ -519,10 +520,15 @@ Record snapshot := mkSN {
   sn_files : list snapshotfile; sn_checksum : option bytes; sn_dummy : bool; sn_shard : N;
   sn_type : Z; sn_imported : bool; sn_ondisk : N; sn_witness : bool }.
 Definition sn_zero := mkSN [] 0 0 0 mb_zero [] None false 0 0 false 0 false.
+Definition sn_size (s : snapshot) : N :=
+  szb (nlen (sn_filepath s)) + szv (sn_filesize s) + szv (sn_index s) + szv (sn_term s) +
+  szb (mb_size (sn_membership s)) + sum_map (fun f => szb (sf_size f)) (sn_files s) +
+  opt_size (sn_checksum s) + 2 + szv (sn_shard s) + szv (enc_i32 (sn_type s)) + 2 +
+  szv (sn_ondisk s) + 2.
 Definition wf_sn (s : snapshot) : Prop :=
   nlen (sn_filepath s) < 2 ^ 32 /\ u64 (sn_filesize s) /\ u64 (sn_index s) /\ u64 (sn_term s) /\
   wf_mb (sn_membership s) /\ Forall wf_sf (sn_files s) /\ olen (sn_checksum s) < 2 ^ 32 /\
-  u64 (sn_shard s) /\ int32 (sn_type s) /\ u64 (sn_ondisk s).
+  u64 (sn_shard s) /\ int32 (sn_type s) /\ u64 (sn_ondisk s) /\ sn_size s < 2 ^ 63.
 Definition sn_to_fields (s : snapshot) : list field :=
   [(2, FB (sn_filepath s)); (3, FV (sn_filesize s)); (4, FV (sn_index s)); (5, FV (sn_term s));
    (6, FB (mb_encode (sn_membership s)))] ++
@@ -530,11 +536,6 @@ Definition sn_to_fields (s : snapshot) : list field :=
   [(9, FV (enc_bool (sn_dummy s))); (10, FV (sn_shard s)); (11, FV (enc_i32 (sn_type s)));
    (12, FV (enc_bool (sn_imported s))); (13, FV (sn_ondisk s)); (14, FV (enc_bool (sn_witness s)))].
 Definition sn_encode s := enc_fields (sn_to_fields s).
-Definition sn_size (s : snapshot) : N :=
-  szb (nlen (sn_filepath s)) + szv (sn_filesize s) + szv (sn_index s) + szv (sn_term s) +
-  szb (mb_size (sn_membership s)) + sum_map (fun f => szb (sf_size f)) (sn_files s) +
-  opt_size (sn_checksum s) + 2 + szv (sn_shard s) + szv (enc_i32 (sn_type s)) + 2 +
-  szv (sn_ondisk s) + 2.
 Definition sn_step (s : snapshot) (f : field) : option snapshot :=
   let '(mkSN a b c d e g h i j k l m n) := s in
   match f with
@@ -565,10 +566,14 @@ Record message := mkMsg {
   m_commit : N; m_reject : bool; m_hint : N; m_entries : list entry; m_snapshot : snapshot;
   m_hinthigh : N }.
 Definition msg_zero := mkMsg 0 0 0 0 0 0 0 0 false 0 [] sn_zero 0.
+Definition msg_size (m : message) : N :=
+  szv (enc_i32 (m_type m)) + szv (m_to m) + szv (m_from m) + szv (m_shard m) + szv (m_term m) +
+  szv (m_logterm m) + szv (m_logindex m) + szv (m_commit m) + 2 + szv (m_hint m) +
+  sum_map (fun e => szb (size e)) (m_entries m) + szb (sn_size (m_snapshot m)) + szv (m_hinthigh m).
 Definition wf_msg (m : message) : Prop :=
   int32 (m_type m) /\ u64 (m_to m) /\ u64 (m_from m) /\ u64 (m_shard m) /\ u64 (m_term m) /\
   u64 (m_logterm m) /\ u64 (m_logindex m) /\ u64 (m_commit m) /\ u64 (m_hint m) /\
-  Forall wf_entry (m_entries m) /\ wf_sn (m_snapshot m) /\ u64 (m_hinthigh m).
+  Forall wf_entry (m_entries m) /\ wf_sn (m_snapshot m) /\ u64 (m_hinthigh m) /\ msg_size m < 2 ^ 63.
 Definition msg_to_fields (m : message) : list field :=
   [(1, FV (enc_i32 (m_type m))); (2, FV (m_to m)); (3, FV (m_from m)); (4, FV (m_shard m));
    (5, FV (m_term m)); (6, FV (m_logterm m)); (7, FV (m_logindex m)); (8, FV (m_commit m));
@@ -576,10 +581,6 @@ Definition msg_to_fields (m : message) : list field :=
   map (fun e => (11, FB (encode e))) (m_entries m) ++
   [(12, FB (sn_encode (m_snapshot m))); (13, FV (m_hinthigh m))].
 Definition msg_encode m := enc_fields (msg_to_fields m).
-Definition msg_size (m : message) : N :=
-  szv (enc_i32 (m_type m)) + szv (m_to m) + szv (m_from m) + szv (m_shard m) + szv (m_term m) +
-  szv (m_logterm m) + szv (m_logindex m) + szv (m_commit m) + 2 + szv (m_hint m) +
-  sum_map (fun e => szb (size e)) (m_entries m) + szb (sn_size (m_snapshot m)) + szv (m_hinthigh m).
 Definition msg_step (s : message) (f : field) : option message :=
   let '(mkMsg a b c d e g h i j k l m n) := s in
   match f with
@@ -650,7 +651,8 @@ Definition wf_ck (c : chunk) : Prop :=
   u64 (ck_count c) /\ olen (ck_data c) < 2 ^ 63 /\ u64 (ck_index c) /\ u64 (ck_term c) /\
   wf_mb (ck_membership c) /\ nlen (ck_filepath c) < 2 ^ 63 /\ u64 (ck_filesize c) /\
   u64 (ck_deployment c) /\ u64 (ck_filechunkid c) /\ u64 (ck_filechunkcount c) /\
-  wf_sf (ck_fileinfo c) /\ ck_binver c < 2 ^ 32 /\ u64 (ck_ondisk c).
+  wf_sf (ck_fileinfo c) /\ ck_binver c < 2 ^ 32 /\ u64 (ck_ondisk c) /\
+  mb_size (ck_membership c) < 2 ^ 63.
 Definition ck_to_fields (c : chunk) : list field :=
   [(1, FV (ck_shard c)); (2, FV (ck_replica c)); (3, FV (ck_from c)); (4, FV (ck_id c));
    (5, FV (ck_size c)); (6, FV (ck_count c))] ++ opt_field 7 (ck_data c) ++
